@@ -192,10 +192,8 @@ fn record_case(lines: &[String], nrejected: usize, out: &mut Out) {
     let text = lines.join("\n");
     for &id in decoders::MODEL_DECODERS {
         if id >= 6 {
-            decoders::model_case(id, &text, out, "c06");
+            // non-trivial (RULE): the file has at least one rejected routed line
+            decoders::model_case_with(id, &text, out, "c06", nrejected > 0);
         }
-    }
-    if nrejected > 0 {
-        out.nontrivial += 0;
     }
 }
